@@ -134,6 +134,12 @@ func replay() {
 		for i := 0; i < 10; i++ {
 			runTransportBatch(c)
 		}
+	case "transport-runt":
+		var c runtCfg
+		_ = json.Unmarshal(raw, &c)
+		for i := 0; i < 5; i++ {
+			runRuntBatch(c)
+		}
 	case "server":
 		var c srvCfg
 		_ = json.Unmarshal(raw, &c)
@@ -172,6 +178,18 @@ func main() {
 
 	rng := rand.New(rand.NewSource(rep.Seed))
 	seed := rng.Uint64()
+
+	// (e') slow-reader client on plain TCP, concurrently with the other phases
+	// (it spends 3 s per round not reading)
+	slowDone := make(chan struct{})
+	slowSeeds := []uint64{rng.Uint64(), rng.Uint64(), rng.Uint64()}
+	go func() {
+		defer close(slowDone)
+		for i := 0; i < rep.Pick(1, 3); i++ {
+			big := []int{96, 64, 160}[i]
+			runServerBatch(srvCfg{Kind: "server", Proto: "tcp", Conns: 1, Queries: big + 40, Window: big + 40, Burst: 4, Seed: slowSeeds[i], Slow: big, PauseMs: 3000})
+		}
+	}()
 
 	// (a) round trips
 	phase("roundtrips")
@@ -228,6 +246,20 @@ func main() {
 		}
 	}
 
+	// (d') runt frames from the peer of a pipelined connection
+	phase("runt_frames")
+	bodies := []string{"zeros", "pattern", "points-past-next-header"}
+	for round := 0; round < rep.Pick(1, 8); round++ {
+		for _, tname := range []string{"tdc", "pipeline"} {
+			for L := 0; L <= 12; L++ {
+				runRuntBatch(runtCfg{Kind: "transport-runt", Transport: tname, Callers: 16 + rng.Intn(24), L: L, Body: bodies[(L+round)%3], Before: rng.Intn(4), Chunk: rng.Intn(3), Seed: rng.Uint64()})
+			}
+			for _, L := range []int{2, 2, 4, 0} {
+				runRuntBatch(runtCfg{Kind: "transport-runt", Transport: tname, Callers: 20 + rng.Intn(20), L: L, Body: []string{"points-past-next-header", "zeros"}[L/3%2], Before: rng.Intn(3), Chunk: 0, Seed: rng.Uint64()})
+			}
+		}
+	}
+
 	// (e) servers on loopback
 	phase("servers")
 	total := rep.Pick(12000, 200000)
@@ -256,6 +288,8 @@ func main() {
 		}
 	}
 
+	phase("slow_reader_wait")
+	<-slowDone
 	phase("doq_client")
 	// (f) mosdns' DoQ client connection against a harness QUIC peer
 	runQuicClientBatch(qcCfg{Kind: "doq-client", Queries: rep.Pick(150, 3000), Workers: 24, Seed: rng.Uint64()})
@@ -273,6 +307,12 @@ func main() {
 	}
 	if rep.Get("server_max_handlers_in_flight_tcp") < 2 || rep.Get("server_max_handlers_in_flight_tls") < 2 {
 		rep.Inconclusive("the server workloads produced no concurrent replies")
+	}
+	if rep.Get("server_slow_reader_replies_verified") == 0 {
+		rep.Inconclusive("the slow-reader phase verified no reply")
+	}
+	if rep.Get("runt_frames_injected") == 0 || rep.Get("runt_connections_closed_by_transport") == 0 || rep.Get("runt_exchanges_failed") == 0 {
+		rep.Inconclusive("the runt-frame workload observed no failing connection")
 	}
 	if rep.Get("transport_query_frames_verified") == 0 || rep.Get("transport_replies_verified") == 0 {
 		rep.Inconclusive("the transport workload verified nothing")
